@@ -388,6 +388,7 @@ func GenModel(t *rapid.T, opts ModelOpts) (*t1ref.Font, map[string]bool) {
 	n := rapid.IntRange(0, max).Draw(t, "nglyphs")
 	seen := map[string]bool{}
 	haveNotdef := !(opts.Unusual && rapid.IntRange(0, 5).Draw(t, "nonotdef") == 0)
+	emptyName := opts.Unusual && rapid.IntRange(0, 7).Draw(t, "emptyglyphname") == 0
 	if haveNotdef {
 		g, ft := genGlyph(t, ".notdef", opts)
 		f.Glyphs = append(f.Glyphs, g)
@@ -400,6 +401,11 @@ func GenModel(t *rapid.T, opts ModelOpts) (*t1ref.Font, map[string]bool) {
 	}
 	for i := 0; i < n; i++ {
 		name := GenGlyphName(t, opts.Unusual)
+		if emptyName && i == 0 {
+			// the empty name `/` is a name like any other
+			name = t1ref.EmptyName
+			feat["empty-glyph-name"] = true
+		}
 		// a conforming font cannot name a glyph like a procedure or operator
 		// that its own CharStrings section executes by name (RD, ND, end ...)
 		if isShadow(name) || name == "NP" || name == "-|" || name == "|-" || name == "|" {
@@ -633,7 +639,7 @@ func Expected(f *t1ref.Font) *type1.Font {
 			continue
 		}
 		h, v := g.Stems()
-		glyphs[g.Name] = &type1.Glyph{
+		glyphs[t1ref.PSName(g.Name)] = &type1.Glyph{
 			Cmds:   cmdsOf(g.Outline()),
 			HStem:  roundInt16(h),
 			VStem:  roundInt16(v),
@@ -664,7 +670,7 @@ func Expected(f *t1ref.Font) *type1.Font {
 			out = append(out, t1ref.Cmd{Op: c.Op, Args: args})
 		}
 		h, v := base.Stems()
-		glyphs[g.Name] = &type1.Glyph{
+		glyphs[t1ref.PSName(g.Name)] = &type1.Glyph{
 			Cmds:   cmdsOf(out),
 			HStem:  roundInt16(h),
 			VStem:  roundInt16(v),
